@@ -165,3 +165,55 @@ def find_key(rep, prog, rule="FIND-KEY"):
                               % (sorted(p[2] for p in created), sorted(p[2] for p in missing)), f.loc())
             else:
                 rep.ok(rule, key, how="compares %s" % sorted(p[2] for p in compared))
+
+
+def in_dst_single(rep, prog, rule="IN-DST"):
+    """POSIX rule zones: whether an instant is in DST is decided by DstInfo::in_dst alone (it is the one place that
+    knows about DST periods wrapping the new year); every function that chooses between the DST offset and the standard
+    offset must make that choice under in_dst."""
+    from .guards import guards
+    from .term import Terms, walk, is_call
+    rep.rule(rule, "in shared::posix::PosixTimeZone::{to_offset, to_offset_info, previous_transition, next_transition} (both "
+                   "copies) every use of the DST offset (DstInfo::offset) is selected by the result of DstInfo::in_dst - either "
+                   "as a dominating branch condition or as the Option::filter predicate in front of the map that reads the "
+                   "offset; in_dst is the only place that handles DST periods wrapping the new year (southern hemisphere, "
+                   "negative DST), so an ad-hoc comparison against the rule's end point mislabels those zones")
+    n = 0
+    for crate in ("jiff", "jiff_static"):
+        for name in ("to_offset", "to_offset_info", "previous_transition", "next_transition"):
+            cands = [f for f in prog.fns.values() if f.crate == crate and not f.is_closure and f.path.endswith("::" + name)
+                     and "posix" in f.path and "PosixTimeZone" in f.path and f.file.endswith("shared/posix.rs")]
+            if len(cands) != 1:
+                rep.violation(rule, "%s %s" % (crate, name), "anchor missing: expected exactly one PosixTimeZone::%s in %s shared/posix.rs, found %d"
+                              % (name, crate, len(cands)), "shared/posix.rs")
+                continue
+            f = cands[0]
+            n += 1
+            closures = [g for g in prog.fns.values() if g.crate == crate and g.is_closure and g.path.startswith(f.path + "::{closure")]
+            T = Terms(f)
+            cfg = mir.CFG(f)
+            bad = []
+            sites = 0
+            for bi, t in mir.iter_calls(f):
+                if t.get("path", "").endswith("DstInfo<'a, ABBREV>::offset") or t.get("path", "").endswith("DstInfo::offset") \
+                        or (t.get("path", "").endswith("::offset") and "DstInfo" in t.get("path", "")):
+                    sites += 1
+                    gs = guards(f, cfg, T, bi)
+                    if not any(any(is_call(x, "::in_dst") for x in walk(c)) for (c, _truth, _sb) in gs):
+                        bad.append((t.get("span") or {}).get("line"))
+            # closure form: filter(|d| d.in_dst(dt)).map(|d| d.offset()..)
+            clos_offset = [g for g in closures if any("DstInfo" in t.get("path", "") and t.get("path", "").endswith("::offset") for _, t in mir.iter_calls(g))]
+            clos_in_dst = [g for g in closures if any(t.get("path", "").endswith("::in_dst") for _, t in mir.iter_calls(g))]
+            if clos_offset:
+                sites += len(clos_offset)
+                filt = [t for _, t in mir.iter_calls(f) if t.get("path", "").endswith("Option::<T>::filter")]
+                if not (filt and clos_in_dst):
+                    bad.append("closure")
+            key = "%s PosixTimeZone::%s" % (crate, name)
+            if sites == 0:
+                rep.violation(rule, key, "anchor missing: no use of DstInfo::offset found", f.loc())
+            elif bad:
+                rep.violation(rule, key, "the DST offset is used at line(s) %s without DstInfo::in_dst deciding it" % bad, f.loc())
+            else:
+                rep.ok(rule, key, how="%d use(s) of the DST offset, each under in_dst" % sites, loc=f.loc())
+    rep.floor(rule + " functions", n, 8)
